@@ -850,9 +850,9 @@ class Runner:
         left = {'<': 0, '>': num, '^': num // 2}[al]
         want = fill * left + t + fill * (num - left)
         if y._s != want:
-            return [('C12', 'pad_text', '%r vs %r' % (y._s, want))]
-        if kind in ('ljust', 'rjust') and fill not in ('', 'ab'):
-            pass
+            # C12 (text as format()) and C10 (ljust/rjust/zfill as str; center like format()'s '^')
+            return [('C12', 'pad_text', '%s(%r,%r) on %r: %r vs %r' % (kind, w, fill, t, y._s, want)),
+                    ('C10', 'pad_text', '%s(%r,%r) on %r: %r vs %r' % (kind, w, fill, t, y._s, want))]
         ay = O.acts(y)
         for k in range(n):
             if not O.same_prec(ay[left + k], pre.acts[k]):
